@@ -57,6 +57,9 @@ class RunWorld:
             return getattr(self.self_stack[-1], "m%d" % t[1])()
         if t[0] == "init":
             return self.O[t[1]].__init__()
+        if t[0] == "new":
+            self.pending = self.O[t[1]]
+            return self.K[self.prog["objs"][t[1]]]()
         raise ValueError(t)
 
     def play(self, site, name, script):
